@@ -83,6 +83,64 @@ Proof.
     + discriminate H.
 Qed.
 
+(* the directory walks never return an io::Error: only Ok, Panic (unchecked
+   index) or OutOfFuel *)
+Definition noerr {A} (r : res A) : Prop := match r with Err _ => False | _ => True end.
+
+Lemma rbind_noerr : forall A B (m : res A) (f : A -> res B),
+  noerr m -> (forall a, noerr (f a)) -> noerr (rbind m f).
+Proof. intros A B m f Hm Hf. destruct m; cbn [rbind]; [apply Hf|exact Hm|exact I|exact I]. Qed.
+
+Lemma dir_entry_of_noerr : forall ds id, noerr (dir_entry_of ds id).
+Proof. intros ds id. unfold dir_entry_of. destruct (nthN ds id); exact I. Qed.
+
+Lemma find_in_siblings_noerr : forall fuel ds nm id, noerr (find_in_siblings fuel ds nm id).
+Proof.
+  induction fuel as [|f IH]; intros ds nm id; cbn [find_in_siblings].
+  - exact I.
+  - destruct (id =? NO_STREAM); [exact I|].
+    apply rbind_noerr; [apply dir_entry_of_noerr|]. intro e.
+    destruct (cmp_names nm (d_name e)); [exact I|apply IH|apply IH].
+Qed.
+
+Lemma lookup_chain_noerr : forall ds names id, noerr (lookup_chain ds names id).
+Proof.
+  intros ds names. induction names as [|nm t IH]; intro id; cbn [lookup_chain].
+  - exact I.
+  - apply rbind_noerr; [apply dir_entry_of_noerr|]. intro e.
+    apply rbind_noerr; [apply find_in_siblings_noerr|]. intros [cid|]; [apply IH|exact I].
+Qed.
+
+Lemma left_spine_noerr : forall fuel ds parent id stack, noerr (left_spine fuel ds parent id stack).
+Proof.
+  induction fuel as [|f IH]; intros ds parent id stack; cbn [left_spine].
+  - exact I.
+  - destruct (id =? NO_STREAM); [exact I|].
+    apply rbind_noerr; [apply dir_entry_of_noerr|]. intro e. apply IH.
+Qed.
+
+Lemma entries_go_noerr : forall fuel ds ord stack acc, noerr (entries_go fuel ds ord stack acc).
+Proof.
+  induction fuel as [|f IH]; intros ds ord stack acc; cbn [entries_go].
+  - exact I.
+  - destruct stack as [|[[parent id] vis] rest]; [exact I|].
+    apply rbind_noerr; [apply dir_entry_of_noerr|]. intro e.
+    apply rbind_noerr.
+    { destruct vis; [apply left_spine_noerr|exact I]. }
+    intro st1. apply rbind_noerr.
+    { destruct ord; [exact I|].
+      destruct (negb (objtype_eqb (d_type e) TStream) && negb (d_child e =? NO_STREAM));
+        [apply left_spine_noerr|exact I]. }
+    intro st2. apply IH.
+Qed.
+
+Lemma entries_collect_noerr : forall ds ord parent start, noerr (entries_collect ds ord parent start).
+Proof.
+  intros ds ord parent start. unfold entries_collect. destruct ord.
+  - apply rbind_noerr; [apply left_spine_noerr|]. intro st. apply entries_go_noerr.
+  - apply entries_go_noerr.
+Qed.
+
 Global Opaque cmp_names validate_name name_chain_from_path lookup_chain.
 
 (* ------------------------------------------------------------------ *)
@@ -455,14 +513,10 @@ Proof.
     destruct (resolve (dirs s) pre) as [| |tid e] eqn:Hr.
     + discriminate H.
     + pose proof (resolve_none _ _ Hr) as Hl.
-      run_m. rewrite bind_eq.
-      rewrite (create_storage_names_sound pre now s k).
-      * reflexivity.
-      * unfold pre_create_storage. rewrite Hr. unfold pre_create_storage in H.
-        rewrite Hr in H. exact H.
+      run_m. rewrite (create_storage_names_sound pre now s k); [reflexivity|exact H].
     + pose proof (resolve_some _ _ _ _ Hr) as [Hl He].
       destruct (objtype_eqb (d_type e) TStream) eqn:Ht.
-      * injection H as <-. run_m. rewrite bind_eq.
+      * injection H as <-. run_m.
         rewrite (create_storage_names_sound pre now s EAlreadyExists).
         -- reflexivity.
         -- unfold pre_create_storage. rewrite Hr. reflexivity.
@@ -559,3 +613,600 @@ Proof.
     rewrite (updN_same _ _ _ _ Hn). reflexivity.
   - apply with_cs_refuse. apply api_cat_sound. exact H.
 Qed.
+
+(* ------------------------------------------------------------------ *)
+(* 3. the refusals are exactly the three kinds of the property         *)
+(* ------------------------------------------------------------------ *)
+Definition three (k : ekind) : Prop :=
+  k = ENotFound \/ k = EAlreadyExists \/ k = EInvalidInput.
+
+Ltac three_tac H :=
+  repeat match type of H with
+         | context [match ?X with _ => _ end] => destruct X
+         end;
+  try discriminate H;
+  try (injection H as <-; unfold three; auto).
+
+Lemma with_names_kinds : forall p g k,
+  (forall names, g names = Some k -> three k) -> with_names p g = Some k -> three k.
+Proof.
+  intros p g k Hg H. unfold with_names in H.
+  destruct (name_chain_from_path p) as [names|k'| |].
+  - eapply Hg; exact H.
+  - injection H as <-. unfold three; auto.
+  - discriminate H.
+  - discriminate H.
+Qed.
+
+Lemma pre_missing_kinds : forall ds names k, pre_missing ds names = Some k -> three k.
+Proof. intros ds names k H. unfold pre_missing in H. three_tac H. Qed.
+
+Lemma pre_parent_kinds : forall ds names k, pre_parent ds names = Some k -> three k.
+Proof. intros ds names k H. unfold pre_parent in H. three_tac H. Qed.
+
+Lemma pre_create_storage_kinds : forall ds names k, pre_create_storage ds names = Some k -> three k.
+Proof.
+  intros ds names k H. unfold pre_create_storage in H.
+  destruct (resolve ds names).
+  - discriminate H.
+  - eapply pre_parent_kinds; exact H.
+  - injection H as <-. unfold three; auto.
+Qed.
+
+Lemma pre_all_kinds : forall ds prefixes k, pre_all ds prefixes = Some k -> three k.
+Proof.
+  intros ds prefixes. induction prefixes as [|pre t IH]; intros k H; cbn [pre_all] in H.
+  - discriminate H.
+  - destruct (resolve ds pre) as [| |tid e].
+    + discriminate H.
+    + eapply pre_create_storage_kinds; exact H.
+    + destruct (objtype_eqb (d_type e) TStream).
+      * injection H as <-. unfold three; auto.
+      * apply IH; exact H.
+Qed.
+
+Lemma pre_create_storage_all_kinds : forall ds names k,
+  pre_create_storage_all ds names = Some k -> three k.
+Proof.
+  intros ds names k H. unfold pre_create_storage_all in H.
+  destruct (validate_all names).
+  - eapply pre_all_kinds; exact H.
+  - injection H as <-. unfold three; auto.
+  - discriminate H.
+  - discriminate H.
+Qed.
+
+Lemma pre_remove_storage_kinds : forall ds names k, pre_remove_storage ds names = Some k -> three k.
+Proof. intros ds names k H. unfold pre_remove_storage in H. three_tac H. Qed.
+
+Lemma pre_want_stream_kinds : forall ds names k, pre_want_stream ds names = Some k -> three k.
+Proof. intros ds names k H. unfold pre_want_stream in H. three_tac H. Qed.
+
+Lemma pre_want_storage_kinds : forall ds names k, pre_want_storage ds names = Some k -> three k.
+Proof. intros ds names k H. unfold pre_want_storage in H. three_tac H. Qed.
+
+Lemma pre_create_stream_kinds : forall ow ds names k,
+  pre_create_stream ow ds names = Some k -> three k.
+Proof.
+  intros ow ds names k H. unfold pre_create_stream in H.
+  destruct (resolve ds names) as [| |tid e].
+  - discriminate H.
+  - eapply pre_parent_kinds; exact H.
+  - three_tac H.
+Qed.
+
+Lemma seek_target_err : forall h w z k, seek_target h w z = Err k -> k = EInvalidInput.
+Proof.
+  intros h w z k H. unfold seek_target in H.
+  repeat match type of H with
+         | context [match ?X with _ => _ end] => destruct X
+         end;
+  try discriminate H; injection H as <-; reflexivity.
+Qed.
+
+Lemma pre_seek_kinds : forall hs0 i w z k, pre_seek hs0 i w z = Some k -> three k.
+Proof.
+  intros hs0 i w z k H. apply pre_seek_cases in H. destruct H as [h [_ Hs]].
+  apply seek_target_err in Hs. subst. unfold three; auto.
+Qed.
+
+Theorem precheck_kinds : forall f o k,
+  precheck f o = Some k -> k = ENotFound \/ k = EAlreadyExists \/ k = EInvalidInput.
+Proof.
+  intros f o k H. change (three k).
+  destruct o; cbn [precheck] in H; try discriminate H;
+    first
+    [ eapply pre_seek_kinds; exact H
+    | eapply with_names_kinds; [|exact H]; intros names Hn;
+      first [ eapply pre_missing_kinds; exact Hn
+            | eapply pre_create_storage_kinds; exact Hn
+            | eapply pre_create_storage_all_kinds; exact Hn
+            | eapply pre_remove_storage_kinds; exact Hn
+            | eapply pre_want_stream_kinds; exact Hn
+            | eapply pre_want_storage_kinds; exact Hn
+            | eapply pre_create_stream_kinds; exact Hn ] ].
+Qed.
+
+(* ------------------------------------------------------------------ *)
+(* 4. ... hence every later result is the same                         *)
+(* ------------------------------------------------------------------ *)
+(* a history: (now, op) pairs; the run collects every result *)
+Definition run_ops (f : fstate) (ops : list (N * op)) : fstate * list (res value) :=
+  fold_left (fun (acc : fstate * list (res value)) (no : N * op) =>
+               let '(f1, out) := acc in
+               let '(f2, r) := step f1 (fst no) (snd no) in
+               (f2, out ++ [r]))
+            ops (f, []).
+
+Theorem refused_no_effect : forall f now o k,
+  precheck f o = Some k ->
+  fst (step f now o) = f /\
+  snd (step f now o) = Err k /\
+  concat_img (img (cs (fst (step f now o)))) = concat_img (img (cs f)) /\
+  hs (fst (step f now o)) = hs f.
+Proof.
+  intros f now o k H. rewrite (precheck_sound f now o k H). cbn [fst snd].
+  repeat split; reflexivity.
+Qed.
+
+Theorem refused_then_same_future : forall f now o k,
+  precheck f o = Some k ->
+  forall ops, run_ops (fst (step f now o)) ops = run_ops f ops.
+Proof.
+  intros f now o k H ops. rewrite (precheck_sound f now o k H). reflexivity.
+Qed.
+
+(* the same with the refused call inside a history: dropping it changes
+   nothing but its own result *)
+Theorem refused_call_can_be_dropped : forall f now o k,
+  precheck f o = Some k ->
+  forall ops,
+    fst (run_ops f ((now, o) :: ops)) = fst (run_ops f ops) /\
+    snd (run_ops f ((now, o) :: ops)) = Err k :: snd (run_ops f ops).
+Proof.
+  intros f now o k H ops. unfold run_ops. cbn [fold_left fst snd].
+  rewrite (precheck_sound f now o k H). cbn [app].
+  set (g := fun (acc : fstate * list (res value)) (no : N * op) =>
+              let '(f1, out) := acc in
+              let '(f2, r) := step f1 (fst no) (snd no) in (f2, out ++ [r])).
+  assert (Hgen : forall ops f0 pre,
+            fst (fold_left g ops (f0, pre)) = fst (fold_left g ops (f0, [])) /\
+            snd (fold_left g ops (f0, pre)) = pre ++ snd (fold_left g ops (f0, []))).
+  { clear. induction ops as [|[n o] t IH]; intros f0 pre.
+    - cbn [fold_left fst snd]. rewrite app_nil_r. split; reflexivity.
+    - cbn [fold_left]. unfold g at 2 4 6 8. cbn [fst snd].
+      destruct (step f0 n o) as [f2 r]. cbn [app].
+      destruct (IH f2 (pre ++ [r])) as [IH1 IH2].
+      destruct (IH f2 [r]) as [IH3 IH4].
+      split.
+      + rewrite IH1, IH3. reflexivity.
+      + rewrite IH2, IH4. rewrite <- app_assoc. reflexivity. }
+  destruct (Hgen ops f [Err k]) as [H1 H2]. split; [exact H1|exact H2].
+Qed.
+
+(* ------------------------------------------------------------------ *)
+(* 6. the theorem is not vacuous: every refusal class is hit            *)
+(* ------------------------------------------------------------------ *)
+Module Examples.
+  (* "/a" "/a/s" "/x/y" "/a/s/t" "/.." "/a/b:c" "/" *)
+  Definition p_a : list N := [47; 97].
+  Definition p_a_s : list N := [47; 97; 47; 115].
+  Definition p_x_y : list N := [47; 120; 47; 121].
+  Definition p_a_s_t : list N := [47; 97; 47; 115; 47; 116].
+  Definition p_up : list N := [47; 46; 46].
+  Definition p_a_up_up : list N := [97; 47; 46; 46; 47; 46; 46].
+  Definition p_bad : list N := [47; 97; 47; 98; 58; 99].
+  Definition p_root : list N := [47].
+  Definition p_b_c : list N := [47; 98; 47; 99].
+  Definition p_a_s_c : list N := [47; 97; 47; 115; 47; 99].
+
+  Definition st0 := init_fstate V3 1024 4.
+  Definition st1 := fst (step st0 1 (OCreateStorage p_a)).
+  Definition st2 := fst (step st1 2 (OCreateStream 0 p_a_s)).
+  Definition st3 := fst (step st2 3 (OHWrite 0 [1; 2; 3; 4; 5])).
+  Definition st := fst (step st3 4 (OHFlush 0)).
+
+  (* the set-up steps succeed *)
+  Example setup_ok :
+    snd (step st0 1 (OCreateStorage p_a)) = Ok VUnit /\
+    snd (step st1 2 (OCreateStream 0 p_a_s)) = Ok VUnit /\
+    snd (step st2 3 (OHWrite 0 [1; 2; 3; 4; 5])) = Ok (VNum 5) /\
+    snd (step st3 4 (OHFlush 0)) = Ok VUnit /\
+    snd (step st 5 (OHLen 0)) = Ok (VNum 5).
+  Proof. vm_compute. repeat split; reflexivity. Qed.
+
+  (* [hit o k]: precheck predicts k, and (independently, by evaluation) the
+     model answers Err k and leaves the state alone *)
+  Definition hit (o : op) (k : ekind) : Prop :=
+    precheck st o = Some k /\ step st 9 o = (st, Err k).
+  Ltac hit_tac := split; vm_compute; reflexivity.
+
+  (* missing parent *)
+  Example missing_parent_storage : hit (OCreateStorage p_x_y) ENotFound. Proof. hit_tac. Qed.
+  Example missing_parent_stream : hit (OCreateStream 1 p_x_y) ENotFound. Proof. hit_tac. Qed.
+  Example missing_parent_new_stream : hit (OCreateNewStream 1 p_x_y) ENotFound. Proof. hit_tac. Qed.
+  (* missing object *)
+  Example missing_open : hit (OOpenStream 1 p_x_y) ENotFound. Proof. hit_tac. Qed.
+  Example missing_cat : hit (OCat p_x_y) ENotFound. Proof. hit_tac. Qed.
+  Example missing_remove_stream : hit (ORemoveStream p_x_y) ENotFound. Proof. hit_tac. Qed.
+  Example missing_remove_storage : hit (ORemoveStorage p_x_y) ENotFound. Proof. hit_tac. Qed.
+  Example missing_remove_storage_all : hit (ORemoveStorageAll p_x_y) ENotFound. Proof. hit_tac. Qed.
+  Example missing_entry : hit (OEntry p_x_y) ENotFound. Proof. hit_tac. Qed.
+  Example missing_read_storage : hit (OReadStorage p_x_y) ENotFound. Proof. hit_tac. Qed.
+  Example missing_walk_storage : hit (OWalkStorage p_x_y) ENotFound. Proof. hit_tac. Qed.
+  Example missing_set_clsid : hit (OSetClsid p_x_y 7) ENotFound. Proof. hit_tac. Qed.
+  Example missing_set_state : hit (OSetState p_x_y 7) ENotFound. Proof. hit_tac. Qed.
+  Example missing_set_created : hit (OSetCreated p_x_y false 1 0) ENotFound. Proof. hit_tac. Qed.
+  Example missing_set_modified : hit (OSetModified p_x_y false 1 0) ENotFound. Proof. hit_tac. Qed.
+  (* wrong type: a stream where a storage is wanted *)
+  Example parent_is_stream_storage : hit (OCreateStorage p_a_s_t) EInvalidInput. Proof. hit_tac. Qed.
+  Example parent_is_stream_stream : hit (OCreateStream 1 p_a_s_t) EInvalidInput. Proof. hit_tac. Qed.
+  Example remove_storage_on_stream : hit (ORemoveStorage p_a_s) EInvalidInput. Proof. hit_tac. Qed.
+  Example read_storage_on_stream : hit (OReadStorage p_a_s) EInvalidInput. Proof. hit_tac. Qed.
+  Example set_clsid_on_stream : hit (OSetClsid p_a_s 7) EInvalidInput. Proof. hit_tac. Qed.
+  Example create_all_through_stream : hit (OCreateStorageAll p_a_s_c) EAlreadyExists. Proof. hit_tac. Qed.
+  (* wrong type: a storage where a stream is wanted *)
+  Example open_storage : hit (OOpenStream 1 p_a) EInvalidInput. Proof. hit_tac. Qed.
+  Example cat_storage : hit (OCat p_a) EInvalidInput. Proof. hit_tac. Qed.
+  Example remove_stream_on_storage : hit (ORemoveStream p_a) EInvalidInput. Proof. hit_tac. Qed.
+  Example create_stream_over_storage : hit (OCreateStream 1 p_a) EAlreadyExists. Proof. hit_tac. Qed.
+  (* existing name *)
+  Example existing_storage : hit (OCreateStorage p_a) EAlreadyExists. Proof. hit_tac. Qed.
+  Example existing_storage_over_stream : hit (OCreateStorage p_a_s) EAlreadyExists. Proof. hit_tac. Qed.
+  Example existing_new_stream : hit (OCreateNewStream 1 p_a_s) EAlreadyExists. Proof. hit_tac. Qed.
+  Example existing_root : hit (OCreateStorage p_root) EAlreadyExists. Proof. hit_tac. Qed.
+  (* non-empty storage *)
+  Example remove_nonempty : hit (ORemoveStorage p_a) EInvalidInput. Proof. hit_tac. Qed.
+  (* removing the root *)
+  Example remove_root : hit (ORemoveStorage p_root) EInvalidInput. Proof. hit_tac. Qed.
+  (* path escaping the root *)
+  Example escape_create : hit (OCreateStorage p_up) EInvalidInput. Proof. hit_tac. Qed.
+  Example escape_create_all : hit (OCreateStorageAll p_a_up_up) EInvalidInput. Proof. hit_tac. Qed.
+  Example escape_open : hit (OOpenStream 1 p_up) EInvalidInput. Proof. hit_tac. Qed.
+  Example escape_entry : hit (OEntry p_a_up_up) EInvalidInput. Proof. hit_tac. Qed.
+  Example escape_remove_all : hit (ORemoveStorageAll p_up) EInvalidInput. Proof. hit_tac. Qed.
+  (* invalid name *)
+  Example bad_name_storage : hit (OCreateStorage p_bad) EInvalidInput. Proof. hit_tac. Qed.
+  Example bad_name_stream : hit (OCreateStream 1 p_bad) EInvalidInput. Proof. hit_tac. Qed.
+  Example bad_name_all : hit (OCreateStorageAll [47; 110; 47; 98; 58; 99]) EInvalidInput.
+  Proof. hit_tac. Qed.
+  (* out-of-range seek, on the open handle 0 of length 5 *)
+  Example seek_past_end : hit (OHSeek 0 WStart 6) EInvalidInput. Proof. hit_tac. Qed.
+  Example seek_end_positive : hit (OHSeek 0 WEnd 1) EInvalidInput. Proof. hit_tac. Qed.
+  Example seek_end_before_start : hit (OHSeek 0 WEnd (-6)) EInvalidInput. Proof. hit_tac. Qed.
+  Example seek_cur_before_start : hit (OHSeek 0 WCur (-6)) EInvalidInput. Proof. hit_tac. Qed.
+  Example seek_cur_past_end : hit (OHSeek 0 WCur 1) EInvalidInput. Proof. hit_tac. Qed.
+
+  (* and precheck is silent on calls that are accepted *)
+  Example accepted :
+    precheck st (OCreateStorage p_b_c) = Some ENotFound /\
+    precheck st (OCreateStorageAll p_b_c) = None /\
+    precheck st (OCreateStream 1 p_a_s) = None /\
+    precheck st (OOpenStream 1 p_a_s) = None /\
+    precheck st (ORemoveStorageAll p_a) = None /\
+    precheck st (OHSeek 0 WStart 5) = None /\
+    precheck st (OHSeek 3 WStart 99) = None /\
+    precheck st (OExists p_up) = None /\
+    snd (step st 9 (OExists p_up)) = Ok (VBool false) /\
+    snd (step st 9 (OCreateStorageAll p_b_c)) = Ok VUnit /\
+    snd (step st 9 (ORemoveStorageAll p_a)) = Ok VUnit /\
+    snd (step st 9 (OHSeek 0 WStart 5)) = Ok (VNum 5).
+  Proof. vm_compute. repeat split; reflexivity. Qed.
+End Examples.
+
+(* ------------------------------------------------------------------ *)
+(* 5. partial converse: for the queries, every error IS a refusal       *)
+(* ------------------------------------------------------------------ *)
+(* For the operations below the body after the checks consists of directory
+   walks only, which never return an io::Error (lemmas *_noerr): so ANY error
+   they return (whatever its kind) is the refusal computed by precheck, and
+   the state is unchanged.
+
+   For the mutating operations the converse needs table consistency, because
+   after the checks these inner primitives can in principle return one of the
+   three kinds:
+     - Alloc.chain_seek:   EInvalidInput when seeking past the end of a chain
+       (write_dir_entry -> chain_seek (128*id) on a directory chain shorter
+       than the table; Store.read_data/write_data/resize on a FAT chain
+       shorter than the recorded stream length);
+     - Mini.mchain_seek:   EInvalidInput, the same for mini chains;
+     - Alloc.free_sector:  EInvalidInput "freed twice" when the FAT cell is
+       already FREE (remove_stream -> free_chain, resize shrinking,
+       create_stream overwrite -> set_len 0);
+     - Mini.free_mini_sector: EInvalidInput, the same for the MiniFAT;
+     - remove_all_go (remove_storage_all): the nested api_remove_stream /
+       api_remove_storage re-parse the walked paths and run their own checks
+       (ENotFound / EInvalidInput) after earlier removals; on a table whose
+       stored names contain '/', or are "." / ".." (foreign files only: such
+       names cannot be created through the API) the re-parsed path differs;
+     - h_seek: flush_changes -> write_data (the primitives above) when the
+       target leaves the buffered window — after seek_target succeeded.
+   None of them yields ENotFound or EAlreadyExists except through the nested
+   API calls of remove_all_go.  EInvalidData / EUnexpectedEof / EWriteZero are
+   outside the property. *)
+
+Lemma pair_err_inv : forall A (s s' : cstate) (r : res A) k,
+  (s, r) = (s', Err k) -> s' = s /\ r = Err k.
+Proof. intros A s s' r k H. injection H as <- ->. split; reflexivity. Qed.
+
+Lemma with_names_complete : forall A (p : list N) g (body : list name -> M A) s s' k,
+  (forall names, body names s = (s', Err k) -> s' = s /\ g names = Some k) ->
+  bind (names_of p) body s = (s', Err k) ->
+  s' = s /\ with_names p g = Some k.
+Proof.
+  intros A p g body s s' k Hb H. rewrite bind_eq, names_of_run in H. unfold with_names.
+  destruct (name_chain_from_path p) as [names|k'| |] eqn:Hn.
+  - apply Hb; exact H.
+  - apply pair_err_inv in H. destruct H as [-> H]. injection H as <-.
+    rewrite (name_chain_err _ _ Hn). split; reflexivity.
+  - discriminate H.
+  - discriminate H.
+Qed.
+
+(* the common prefix of the queries: lookup, then (optionally) the entry *)
+Ltac noerr_contra :=
+  match goal with
+  | H : lookup_chain ?ds ?n ?i = Err _ |- _ =>
+    pose proof (lookup_chain_noerr ds n i) as Hne; rewrite H in Hne; destruct Hne
+  | H : dir_entry_of ?ds ?i = Err _ |- _ =>
+    pose proof (dir_entry_of_noerr ds i) as Hne; rewrite H in Hne; destruct Hne
+  | H : entries_collect ?ds ?o ?p ?i = Err _ |- _ =>
+    pose proof (entries_collect_noerr ds o p i) as Hne; rewrite H in Hne; destruct Hne
+  end.
+
+Lemma api_entry_complete : forall p s s' k,
+  api_entry p s = (s', Err k) -> s' = s /\ with_names p (pre_missing (dirs s)) = Some k.
+Proof.
+  intros p s s' k H. unfold api_entry in H. eapply with_names_complete; [|exact H].
+  clear H. intros names H. cbv beta in H. unfold pre_missing.
+  rewrite bind_eq, lookup_run in H.
+  destruct (lookup_chain (dirs s) names ROOT_STREAM_ID) as [[id|]|k'| |] eqn:Hl.
+  - rewrite bind_eq, dir_entry_run in H.
+    destruct (dir_entry_of (dirs s) id) as [e|k'| |] eqn:He; try discriminate H.
+    apply pair_err_inv in H. destruct H as [_ H]. injection H as ->. noerr_contra.
+  - apply pair_err_inv in H. destruct H as [-> H]. injection H as <-. split; reflexivity.
+  - noerr_contra.
+  - discriminate H.
+  - discriminate H.
+Qed.
+
+Lemma api_walk_storage_complete : forall p s s' k,
+  api_walk_storage p s = (s', Err k) -> s' = s /\ with_names p (pre_missing (dirs s)) = Some k.
+Proof.
+  intros p s s' k H. unfold api_walk_storage in H. eapply with_names_complete; [|exact H].
+  clear H. intros names H. cbv beta in H. unfold pre_missing.
+  rewrite bind_eq, lookup_run in H.
+  destruct (lookup_chain (dirs s) names ROOT_STREAM_ID) as [[id|]|k'| |] eqn:Hl.
+  - rewrite bind_eq in H. cbn [get lift] in H.
+    apply pair_err_inv in H. destruct H as [_ H]. noerr_contra.
+  - apply pair_err_inv in H. destruct H as [-> H]. injection H as <-. split; reflexivity.
+  - noerr_contra.
+  - discriminate H.
+  - discriminate H.
+Qed.
+
+Lemma api_read_storage_complete : forall p s s' k,
+  api_read_storage p s = (s', Err k) -> s' = s /\ with_names p (pre_want_storage (dirs s)) = Some k.
+Proof.
+  intros p s s' k H. unfold api_read_storage in H. eapply with_names_complete; [|exact H].
+  clear H. intros names H. cbv beta in H. unfold pre_want_storage, resolve.
+  rewrite bind_eq, lookup_run in H.
+  destruct (lookup_chain (dirs s) names ROOT_STREAM_ID) as [[id|]|k'| |] eqn:Hl.
+  - rewrite bind_eq, dir_entry_run in H.
+    destruct (dir_entry_of (dirs s) id) as [e|k'| |] eqn:He; try discriminate H.
+    + destruct (objtype_eqb (d_type e) TStream).
+      * apply pair_err_inv in H. destruct H as [-> H]. injection H as <-. split; reflexivity.
+      * destruct (negb (objtype_eqb (d_type e) TStorage) && negb (objtype_eqb (d_type e) TRoot));
+          [discriminate H|].
+        rewrite bind_eq in H. cbn [get lift] in H.
+        apply pair_err_inv in H. destruct H as [_ H]. noerr_contra.
+    + apply pair_err_inv in H. destruct H as [_ H]. injection H as ->. noerr_contra.
+  - apply pair_err_inv in H. destruct H as [-> H]. injection H as <-. split; reflexivity.
+  - noerr_contra.
+  - discriminate H.
+  - discriminate H.
+Qed.
+
+Lemma handle_new_ok : forall id mb s e,
+  dir_entry_of (dirs s) id = Ok e ->
+  handle_new' id mb s = (s, Ok (mkHandle id (d_len e) (buf_new mb) 0 false)).
+Proof.
+  intros id mb s e He. unfold handle_new', handle_new, stream_len_of.
+  rewrite bind_eq, dir_entry_run, He. reflexivity.
+Qed.
+
+Lemma api_open_stream_complete : forall p mb s s' k,
+  api_open_stream p mb s = (s', Err k) -> s' = s /\ with_names p (pre_want_stream (dirs s)) = Some k.
+Proof.
+  intros p mb s s' k H. unfold api_open_stream in H. eapply with_names_complete; [|exact H].
+  clear H. intros names H. cbv beta in H. unfold pre_want_stream, resolve.
+  rewrite bind_eq, lookup_run in H.
+  destruct (lookup_chain (dirs s) names ROOT_STREAM_ID) as [[id|]|k'| |] eqn:Hl.
+  - rewrite bind_eq, dir_entry_run in H.
+    destruct (dir_entry_of (dirs s) id) as [e|k'| |] eqn:He; try discriminate H.
+    + destruct (negb (objtype_eqb (d_type e) TStream)).
+      * apply pair_err_inv in H. destruct H as [-> H]. injection H as <-. split; reflexivity.
+      * rewrite (handle_new_ok _ _ _ _ He) in H. discriminate H.
+    + apply pair_err_inv in H. destruct H as [_ H]. injection H as ->. noerr_contra.
+  - apply pair_err_inv in H. destruct H as [-> H]. injection H as <-. split; reflexivity.
+  - noerr_contra.
+  - discriminate H.
+  - discriminate H.
+Qed.
+
+(* exists / is_stream / is_storage never fail *)
+Lemma lookup_path_noerr : forall p s s' k, lookup_path p s <> (s', Err k).
+Proof.
+  intros p s s' k H. unfold lookup_path in H.
+  destruct (name_chain_from_path p) as [names|k'| |]; try discriminate H.
+  rewrite lookup_run in H.
+  destruct (lookup_chain (dirs s) names ROOT_STREAM_ID) as [[id|]|k'| |] eqn:Hl;
+    try discriminate H.
+  - rewrite dir_entry_run in H.
+    destruct (dir_entry_of (dirs s) id) as [e|k'| |] eqn:He; try discriminate H.
+    noerr_contra.
+  - noerr_contra.
+Qed.
+
+Lemma bind_ret_noerr : forall A B (m : M A) (g : A -> B) s s' k,
+  (forall s' k, m s <> (s', Err k)) -> bind m (fun a => ret (g a)) s <> (s', Err k).
+Proof.
+  intros A B m g s s' k Hm H. rewrite bind_eq in H.
+  destruct (m s) as [s1 [a|k'| |]] eqn:Hms; cbn [ret] in H; try discriminate H.
+  eapply Hm. reflexivity.
+Qed.
+
+Lemma dir_entry_run_noerr : forall id s s' k, dir_entry id s <> (s', Err k).
+Proof.
+  intros id s s' k H. rewrite dir_entry_run in H.
+  apply pair_err_inv in H. destruct H as [_ H]. noerr_contra.
+Qed.
+
+Lemma with_cs_err_inv : forall A (m : M A) kf f f' k,
+  with_cs f m kf = (f', Err k) ->
+  exists s', m (cs f) = (s', Err k) /\ f' = mkF s' (hs f) (maxbuf f).
+Proof.
+  intros A m kf f f' k H. unfold with_cs in H.
+  destruct (m (cs f)) as [s' r]. injection H as <- H.
+  destruct r; cbn [rmap rbind] in H; try discriminate H.
+  injection H as ->. exists s'. split; reflexivity.
+Qed.
+
+Lemma with_new_handle_err_inv : forall (m : M handle) i f f' k,
+  with_new_handle f i m = (f', Err k) ->
+  exists s', m (cs f) = (s', Err k) /\ f' = mkF s' (hs f) (maxbuf f).
+Proof.
+  intros m i f f' k H. unfold with_new_handle in H.
+  destruct (m (cs f)) as [s' r].
+  destruct r; try discriminate H.
+  injection H as <- ->. exists s'. split; reflexivity.
+Qed.
+
+Definition query (o : op) : bool :=
+  match o with
+  | OExists _ | OIsStream _ | OIsStorage _ | OEntry _ | ORootEntry
+  | OReadStorage _ | OReadRoot | OWalk | OWalkStorage _ | OOpenStream _ _
+  | OFlushFile | OVersion | OHLen _ | OHPos _ | OHConsume _ _ => true
+  | _ => false
+  end.
+
+Theorem precheck_complete_partial : forall f now o f' k,
+  query o = true ->
+  step f now o = (f', Err k) ->
+  f' = f /\ precheck f o = Some k.
+Proof.
+  intros [s hs0 mb] now o f' k Hq H.
+  destruct o; try discriminate Hq; clear Hq; cbn [step] in H; cbn [precheck cs hs].
+  - (* OOpenStream *)
+    apply with_new_handle_err_inv in H. destruct H as [s' [H ->]]. cbn [cs hs maxbuf] in *.
+    apply api_open_stream_complete in H. destruct H as [-> H]. split; [reflexivity|exact H].
+  - (* OExists *)
+    apply with_cs_err_inv in H. destruct H as [s' [H _]]. exfalso.
+    unfold api_exists in H. revert H. apply bind_ret_noerr. intros; apply lookup_path_noerr.
+  - (* OIsStream *)
+    apply with_cs_err_inv in H. destruct H as [s' [H _]]. exfalso.
+    unfold api_is_stream in H. revert H. apply bind_ret_noerr. intros; apply lookup_path_noerr.
+  - (* OIsStorage *)
+    apply with_cs_err_inv in H. destruct H as [s' [H _]]. exfalso.
+    unfold api_is_storage in H. revert H. apply bind_ret_noerr. intros; apply lookup_path_noerr.
+  - (* OEntry *)
+    apply with_cs_err_inv in H. destruct H as [s' [H ->]]. cbn [cs hs maxbuf] in *.
+    apply api_entry_complete in H. destruct H as [-> H]. split; [reflexivity|exact H].
+  - (* ORootEntry *)
+    apply with_cs_err_inv in H. destruct H as [s' [H _]]. exfalso.
+    unfold api_root_entry in H. revert H. apply bind_ret_noerr. intros; apply dir_entry_run_noerr.
+  - (* OReadStorage *)
+    apply with_cs_err_inv in H. destruct H as [s' [H ->]]. cbn [cs hs maxbuf] in *.
+    apply api_read_storage_complete in H. destruct H as [-> H]. split; [reflexivity|exact H].
+  - (* OReadRoot *)
+    apply with_cs_err_inv in H. destruct H as [s' [H _]]. exfalso. cbn [cs] in H.
+    unfold api_read_root in H. rewrite bind_eq, dir_entry_run in H.
+    destruct (dir_entry_of (dirs s) ROOT_STREAM_ID) as [e|k'| |] eqn:He; try discriminate H.
+    + rewrite bind_eq in H. cbn [get lift] in H.
+      apply pair_err_inv in H. destruct H as [_ H]. noerr_contra.
+    + noerr_contra.
+  - (* OWalk *)
+    apply with_cs_err_inv in H. destruct H as [s' [H _]]. exfalso. cbn [cs] in H.
+    unfold api_walk in H. rewrite bind_eq in H. cbn [get lift] in H.
+    apply pair_err_inv in H. destruct H as [_ H]. noerr_contra.
+  - (* OWalkStorage *)
+    apply with_cs_err_inv in H. destruct H as [s' [H ->]]. cbn [cs hs maxbuf] in *.
+    apply api_walk_storage_complete in H. destruct H as [-> H]. split; [reflexivity|exact H].
+  - (* OFlushFile *) discriminate H.
+  - (* OVersion *) discriminate H.
+  - (* OHConsume *)
+    exfalso. unfold with_handle in H. cbn [cs hs maxbuf] in H.
+    destruct (nthN hs0 h) as [[h0|]|]; try discriminate H.
+    unfold h_consume in H.
+    destruct (b_cap (h_buf h0) <? b_pos (h_buf h0) + k0); discriminate H.
+  - (* OHLen *)
+    exfalso. unfold with_handle in H. cbn [cs hs maxbuf] in H.
+    destruct (nthN hs0 h) as [[h0|]|]; discriminate H.
+  - (* OHPos *)
+    exfalso. unfold with_handle in H. cbn [cs hs maxbuf] in H.
+    destruct (nthN hs0 h) as [[h0|]|]; discriminate H.
+Qed.
+
+(* for OHSeek the refusal is decided by seek_target alone: an accepted target
+   can only fail later in flush_changes (an I/O error of the store) *)
+Theorem seek_refusal_exact : forall f i w z h,
+  nthN (hs f) i = Some (Some h) ->
+  forall k, seek_target h w z = Err k <-> precheck f (OHSeek i w z) = Some k.
+Proof.
+  intros f i w z h Hn k. cbn [precheck]. unfold pre_seek. rewrite Hn. split.
+  - intros ->. reflexivity.
+  - destruct (seek_target h w z); intro H; try discriminate H. injection H as ->. reflexivity.
+Qed.
+
+(* ------------------------------------------------------------------ *)
+(* 7. a refusal AFTER a mutation: remove_storage_all on a foreign file  *)
+(* ------------------------------------------------------------------ *)
+(* The converse of precheck_sound ("an Err of the three kinds leaves the state
+   alone") is FALSE for remove_storage_all without an invariant on stored names.
+   validate_name (used by open, strict or not) accepts the names "." and "..";
+   the API can never create them (the path parser consumes them) but a foreign
+   file can hold them.  remove_all_go re-parses every walked path: "/a/.." is
+   the root, so the nested remove_stream is refused (InvalidInput: not a
+   stream) — after "/a/zzz", later in the walk, has already been removed.
+   Witness: a byte string accepted by STRICT open. *)
+Module ForeignDotDot.
+  Definition p_a : list N := [47; 97].
+  Definition p_a_yy : list N := [47; 97; 47; 121; 121].
+  Definition p_a_zzz : list N := [47; 97; 47; 122; 122; 122].
+  Definition g0 := init_fstate V3 1024 4.
+  Definition g1 := fst (step g0 1 (OCreateStorage p_a)).
+  Definition g2 := fst (step g1 2 (OCreateStream 0 p_a_yy)).
+  Definition g3 := fst (step g2 3 (OCreateStream 1 p_a_zzz)).
+  Definition g4 := fst (step (fst (step g3 4 (OHDrop 0))) 4 (OHDrop 1)).
+  Definition rename (e : dirent) (n : name) : dirent :=
+    mkDirent n (d_type e) (d_color e) (d_left e) (d_right e) (d_child e) (d_clsid e)
+             (d_state e) (d_ctime e) (d_mtime e) (d_start e) (d_len e).
+  (* rename slot 2 ("yy", same length and same place in the order) to ".."
+     and write the entry through to the image *)
+  Definition patched : cstate * res unit :=
+    let s := cs g4 in
+    match nthN (dirs s) 2 with
+    | Some e => write_dir_entry 2 (w_dirs s (updN (dirs s) 2 (rename e [DOT; DOT])))
+    | None => (s, Panic 0)
+    end.
+  Definition bytes : list byte := concat_img (img (fst patched)).
+  Definition foreign : fstate :=
+    match open_model true bytes with
+    | Ok s => mkF s (repeatN None 4) 1024
+    | _ => g0
+    end.
+
+  Theorem remove_storage_all_refused_after_mutation :
+    is_ok (open_model true bytes) = true /\
+    map d_name (dirs (cs foreign)) = [ROOT_DIR_NAME; [97]; [DOT; DOT]; [122; 122; 122]] /\
+    precheck foreign (ORemoveStorageAll p_a) = None /\
+    snd (step foreign 9 (OExists p_a_zzz)) = Ok (VBool true) /\
+    snd (step foreign 9 (ORemoveStorageAll p_a)) = Err EInvalidInput /\
+    snd (step (fst (step foreign 9 (ORemoveStorageAll p_a))) 9 (OExists p_a_zzz)) = Ok (VBool false).
+  Proof. vm_compute. repeat split; reflexivity. Qed.
+End ForeignDotDot.
+
+Print Assumptions precheck_sound.
+Print Assumptions precheck_kinds.
+Print Assumptions refused_then_same_future.
+Print Assumptions precheck_complete_partial.
